@@ -7,6 +7,7 @@ CONSTANTS
   ReadCalls <- GenReadCalls
   MaxReads <- GenMaxReads
   Broken <- GenBroken
+  InitMap <- GenInit
 INVARIANTS TypeOK MutualExclusion NoLostUpdate ReadsNeverWait
 PROPERTIES ReaderProgress
 CHECK_DEADLOCK FALSE
